@@ -382,3 +382,167 @@ Proof.
   pose proof Example.ex_tree_roundtrip as H. unfold Example.ex_img in H.
   destruct (serialize_fstree (img_compress 3) GenC01.c_id_table_limit Example.ex_tree); try exact H. apply H.
 Qed.
+
+(* ------------------------------------------------------------------------------------------ *)
+(* whole image: sqfs_writer_init + sqfs_writer_finish (lib/common/src/writer/init.c, finish.c)     *)
+(* ------------------------------------------------------------------------------------------ *)
+(* Model coq/Image/FinishModel.v: write_image (super block provisional write, compressor options, data area, inode
+   table, directory table, fragment table, export table, id table, xattr section, bytes_used, flags, final super block,
+   padding) on top of C14's super block codec, Img's serialize_fstree and the table writer above.  The data area, the
+   fragment entries and the xattr section are inputs (C08 / C01 own them).  Reader side: coq/Image/ReaderModel.v
+   (read_super, read_table, read_ids / read_frags / read_export, read_image_tree) and the executable validator
+   coq/Image/ValidModel.v (valid_image), both written from doc/format.adoc.
+   Domain: image_domain cfg inp (decidable, inputs: representable tree, compressor id 1..6, fragment entries fit
+   their fields, compressor options = nothing or one uncompressed metadata block, xattr header inside the xattr
+   section) and image_fits w (decidable, the run: Img's trace_fits and bytes_used < 2^64). *)
+From SqfsV Require C14.SuperModel.
+From SqfsV Require Import Image.FinishModel Image.ReaderModel Image.ValidModel Image.FinishProofs Image.ExportInv
+  Image.ImageProofs.
+From SqfsV Require Image.Example.
+
+(* image_layout_ok: the file is super block ++ options ++ data ++ inode table ++ directory table ++ fragment table ++
+   export table ++ id table ++ xattr section ++ zero padding, in this order; inode_table_start / directory_table_start
+   are the offsets of those sections; every lookup table start points at the location list that ends its section
+   (section start + 2 <= start, start + 8 * ceil(count * entry size / 8192) = start of the next section), an omitted
+   table has start 0xFFFFFFFFFFFFFFFF and an empty section; bytes_used = 96 + everything written = offset of the
+   padding; the file length is bytes_used + padding, a multiple of the device block size, padding < device block;
+   inode / id / fragment counts, root reference, block size and block_log = log2 block_size are those of the inputs;
+   the flag word is flags_of (COMPRESSOR_OPTIONS iff options were written, NO_FRAGMENTS iff the fragment table is
+   empty, EXPORTABLE iff an export table was written, NO_XATTRS unless an xattr section was written: final_flags_bits) *)
+Theorem image_layout_ok : forall compress uncompress, contract compress uncompress ->
+  forall limit, limit <= 65535 ->
+  forall cfg inp w,
+  write_image compress limit cfg inp = Res.Ok w -> image_domain cfg inp = true -> image_fits w = true ->
+  ImageLayout cfg inp w (c_devblk cfg).
+Proof.
+  exact (fun c u H l Hl cfg inp w Hw Hd Hf => image_layout_l c u H l Hl cfg inp w Hw Hd Hf (c_devblk cfg) eq_refl).
+Qed.
+Print Assumptions image_layout_ok.
+
+(* image_super_roundtrip: the reader specification (doc/format.adoc "The Superblock": field table, magic, version 4.0,
+   block size a power of two in 4 KiB .. 1 MiB, block_log = log2 block_size, compressor id 1 .. 6) reads from the
+   image bytes exactly the super block sqfs_writer_finish committed *)
+Theorem image_super_roundtrip : forall compress uncompress, contract compress uncompress ->
+  forall limit, limit <= 65535 ->
+  forall cfg inp w,
+  write_image compress limit cfg inp = Res.Ok w -> image_domain cfg inp = true -> image_fits w = true ->
+  read_super (image_bytes w) = Some (w_super w).
+Proof. exact super_roundtrip_l. Qed.
+Print Assumptions image_super_roundtrip.
+
+(* image_tables_roundtrip: read through the location lists the super block points at ("Storing Lookup Tables"), the
+   id table is the id table sqfs_serialize_fstree built, the fragment table is the list of (start, size, 0) entries the
+   block processor left, and the export table (iff cfg->exportable) has one slot per inode, slot k = the reference
+   recorded for inode k + 1 or 0xFFFFFFFFFFFFFFFF, and it IS that reference for the root and for every inode that
+   occurs as an entry of some directory *)
+Theorem image_tables_roundtrip : forall compress uncompress, contract compress uncompress ->
+  forall limit, limit <= 65535 ->
+  forall cfg inp w,
+  write_image compress limit cfg inp = Res.Ok w -> image_domain cfg inp = true -> image_fits w = true ->
+  let b := image_bytes w in
+  let t := in_tree inp in
+  read_ids uncompress b (w_super w) = Some (si_ids (w_img w)) /\
+  read_frags uncompress b (w_super w) = Some (map (fun f => (fst f, snd f, 0)) (in_frags inp)) /\
+  ((c_exportable cfg = false /\ w_export w = None /\ read_export uncompress b (w_super w) = Some None) \/
+   (c_exportable cfg = true /\ exists l,
+      w_export w = Some l /\ read_export uncompress b (w_super w) = Some (Some l) /\ lenN l = Res.nlen t /\
+      (forall k, nth k l U64MAX = ref_of (si_refs (w_img w)) (N.of_nat k + 1) \/ nth k l U64MAX = U64MAX) /\
+      (forall c, c = Res.nlen t \/ In c (kids_upto t (length t)) ->
+                 nth (N.to_nat (c - 1)) l U64MAX = ref_of (si_refs (w_img w)) c))).
+Proof.
+  exact (fun c u H l Hl cfg inp w Hw Hd Hf =>
+           conj (ids_roundtrip_l c u H l Hl cfg inp w Hw Hd Hf)
+                (conj (frags_roundtrip_l c u H l Hl cfg inp w Hw Hd Hf)
+                      (export_roundtrip_l c u H l Hl cfg inp w Hw Hd Hf))).
+Qed.
+Print Assumptions image_tables_roundtrip.
+
+(* image_tree_roundtrip: reading the tree FROM THE IMAGE BYTES — super block, id table through its location list, inode
+   table = [inode_table_start, directory_table_start), directory table = [directory_table_start, first lookup table
+   block), root reference, inode count as fuel — yields the tree that was serialized (Img.tree_roundtrip composed
+   with the layout) *)
+Theorem image_tree_roundtrip : forall compress uncompress, contract compress uncompress ->
+  forall limit, limit <= 65535 ->
+  forall cfg inp w,
+  write_image compress limit cfg inp = Res.Ok w -> image_domain cfg inp = true -> image_fits w = true ->
+  let t := in_tree inp in
+  exists lt, spec_tree t (length t) (Res.nlen t) = Some lt /\
+             read_image_tree uncompress (image_bytes w) = Some lt.
+Proof. exact tree_roundtrip_image_l. Qed.
+Print Assumptions image_tree_roundtrip.
+
+(* writer_valid, full statement (NOT proved in full):
+     write_image compress limit cfg inp = Ok w -> image_domain cfg inp = true -> image_fits w = true ->
+     valid_image uncompress (c_devblk cfg) (image_bytes w) = true.
+   Proved part: the super block clause and the six layout / lookup table clauses of valid_image (v_size: bytes_used
+   <= file size = next multiple of the device block; v_order: section starts strictly ordered as the format
+   prescribes; v_opts: compressor options flag <-> one uncompressed metadata block behind the super block; v_meta:
+   inode and directory table are gap-free block sequences, every block header / content <= 8 KiB, stored <= content;
+   v_chain: fragment / export / id table blocks are exactly where their location lists say, sections follow each
+   other without gaps up to bytes_used; v_tables: table sizes match their counts) hold, and valid_image's verdict
+   equals that of the remaining three clauses valid_tree (v_inodes: the inode table decodes into exactly inode_count
+   inodes numbered 1 .. inode_count with id indices in range; v_root; v_dirs: per directory the invariants of
+   serialized_dirs_wellformed).  Missing: those three clauses for the scan-based executable validator — their
+   content is proved about the reader specification instead (image_tree_roundtrip, serialized_dirs_wellformed,
+   serialize_refs_resolve) and the validator itself is run on every tie case.  The xattr section is an abstract input:
+   the hypothesis xattr_section_ok says it is empty or well-formed in place. *)
+Theorem writer_valid_partial : forall compress uncompress, contract compress uncompress ->
+  forall limit, limit <= 65535 ->
+  forall cfg inp w,
+  write_image compress limit cfg inp = Res.Ok w -> image_domain cfg inp = true -> image_fits w = true ->
+  xattr_section_ok uncompress w ->
+  read_super (image_bytes w) = Some (w_super w) /\
+  valid_layout uncompress (c_devblk cfg) (image_bytes w) (w_super w) = true /\
+  valid_image uncompress (c_devblk cfg) (image_bytes w) = valid_tree uncompress (image_bytes w) (w_super w).
+Proof.
+  exact (fun c u H l Hl cfg inp w Hw Hd Hf => writer_valid_partial_l c u H l Hl cfg inp w Hw Hd Hf (c_devblk cfg) eq_refl).
+Qed.
+Print Assumptions writer_valid_partial.
+
+(* non-vacuity: the hypotheses hold of a concrete image (96 inode tree of Img/Example.v, zero-run-length compressor,
+   compressor options, data area, a fragment, export table), and of a second one without any optional section *)
+Example ex_image_hyps :
+  contract (img_compress 3) (img_uncompress 3) /\ GenC01.c_id_table_limit <= 65535 /\
+  image_domain Example.ex_cfg Example.ex_inp = true /\ image_domain Example.ex_cfg2 Example.ex_inp2 = true /\
+  match Example.ex_w, Example.ex_w2 with
+  | Res.Ok w, Res.Ok w2 => image_fits w = true /\ image_fits w2 = true
+  | _, _ => False
+  end.
+Proof.
+  split; [exact (ZrleProofs.img_contract 3 (or_intror eq_refl))|]. split; [vm_compute; discriminate|].
+  exact Example.ex_image_domain.
+Qed.
+
+(* on that image the WHOLE validator computes to true (all nine clauses), and rejects the image without its padding,
+   with another device block size, with a trailing byte *)
+Example ex_image_valid :
+  match Example.ex_w, Example.ex_w2 with
+  | Res.Ok w, Res.Ok w2 =>
+      valid_image (img_uncompress 3) 4096 (image_bytes w) = true /\
+      valid_image (img_uncompress 1) 1000 (image_bytes w2) = true /\
+      lenN (image_bytes w) = 28672 /\ SuperModel.s_bytes_used (w_super w) = 28371 /\
+      valid_image (img_uncompress 3) 4096 (takeN 28371 (image_bytes w)) = false /\
+      valid_image (img_uncompress 3) 8192 (image_bytes w) = false /\
+      valid_image (img_uncompress 3) 4096 (image_bytes w ++ [0]) = false
+  | _, _ => False
+  end.
+Proof. exact Example.ex_image_valid. Qed.
+
+(* and the reader specification returns the super block, the three tables and the tree *)
+Example ex_image_reads_back :
+  match Example.ex_w with
+  | Res.Ok w =>
+      let b := image_bytes w in
+      read_super b = Some (w_super w) /\
+      read_ids (img_uncompress 3) b (w_super w) = Some [1000; 100; 0] /\
+      read_frags (img_uncompress 3) b (w_super w) = Some [(102, 16777316, 0)] /\
+      match read_export (img_uncompress 3) b (w_super w) with
+      | Some (Some l) => l = si_refs (w_img w) /\ lenN l = 96
+      | _ => False
+      end /\
+      read_image_tree (img_uncompress 3) b = spec_tree Img.Example.ex_tree (length Img.Example.ex_tree) (Res.nlen Img.Example.ex_tree) /\
+      Img.Example.is_some (read_image_tree (img_uncompress 3) b) = true /\
+      SuperModel.s_flags (w_super w) = 1768
+  | _ => False
+  end.
+Proof. exact Example.ex_image_reads_back. Qed.
